@@ -26,7 +26,10 @@ PARTIAL = {
 RULE = ("API-built documents (3..9 rows x 2..6 columns, optional second table at given coordinates) and fixture documents x a "
         "script over {row_height, col_width, header counts, table/sheet name, caption text, caption / name visibility} x 0..6 "
         "border strokes of dyadic widths 0.25..8 pt on the affected rows/columns (before and after the sizes are set) x "
-        "sizes queried or not before saving x 1..3 save/reopen cycles; every observable of every table compared with a twin "
+        "sizes queried or not before saving x 1..3 save/reopen cycles; 30 % of the API-built histories end in a structural tail "
+        "(table added below, add_row(1..6) / add_column(1..2) / resize; delete_row at the end only in histories without strokes - "
+        "recorded finding stale-size-memo-after-delete-row) with 0..3 further strokes on the last row / column or running past "
+        "them (oracle only); every observable of every table compared with a twin "
         "document that was built the same way and only read. One protocol line per axis (rows, columns) and one for the labels "
         "of the scripted table. Non-trivial = a history with at least one explicit size, border or label change, or a fixture "
         "table with a non-default stored size; distinct by protocol line")
@@ -34,7 +37,9 @@ ASSUMPTIONS = [
     "sizes and allowances cross the boundary as exact rationals of the floats the code computes with (stored sizes are binary32; "
     "the allowance max/2 + max/2 is taken from the same float expression); float addition of an integer size and an allowance is "
     "assumed exact (border widths in the generated histories are multiples of 0.25 pt)",
-    "border widths survive save/reopen (property C15), so the allowance function is the same before and after a cycle",
+    "border widths survive save/reopen (property C15), so the allowance function is the same before and after a cycle; since "
+    "fixes/C15-borders-refreshed-after-cell-recreation.patch this includes the cells of appended rows / columns (they report the "
+    "strokes along their edges in the open document too - Props.C15.open_eq_saved_edits)",
     "an integer size below 2^24 is exactly representable in the binary32 field it is written to",
     "a row's own height (reported minus whole points of allowance) is not 0: 0 is how the file says 'default' (hypothesis "
     "Storable; generated sizes are >= 10 pt)",
@@ -336,13 +341,25 @@ def history(sub: Ctx, seed: int, h: int, fixture):
         # height (rows added / removed / resized), or the other way round; positions are read before the save (twin) and
         # after the reopen.  The size / label model lines are not emitted for these histories (oracle only).
         structural = True
-        # strokes are left out of these histories: a row / column added next to a stroked edge is the recorded finding
-        # `size-changes-on-reopen-after-add-next-to-stroke` (fixed scenario `stroke-then-add-row`)
-        script = [op for op in script if op[0] != "stroke"]
+        # strokes stay in these histories, and some are put on the edges the tail appends rows / columns to (or run past them):
+        # the appended cells share those edges (repaired defect `size-changes-on-reopen-after-add-next-to-stroke`,
+        # fixes/C15-borders-refreshed-after-cell-recreation.patch; fixed scenario `stroke-then-add-row`)
+        for _ in range(rng.choice([0, 1, 2, 3])):
+            k = rng.random()
+            if k < 0.35:
+                script.append(["stroke", "bottom", nr - 1, rng.randrange(nc), rng.randint(1, 3), rng.choice(WIDTHS)])
+            elif k < 0.7:
+                script.append(["stroke", "right", rng.randrange(nr), nc - 1, rng.randint(1, 3), rng.choice(WIDTHS)])
+            elif k < 0.85:
+                script.append(["stroke", rng.choice(["left", "right"]), nr - 1, rng.randrange(nc), rng.randint(2, 4), rng.choice(WIDTHS)])
+            else:
+                script.append(["stroke", rng.choice(["top", "bottom"]), rng.randrange(nr), nc - 1, rng.randint(2, 4), rng.choice(WIDTHS)])
         hdr = max([op[1] for op in script if op[0] == "hdr_rows"] + [tb_t.num_header_rows])
         grow = [["addrow", rng.randint(1, 6)], ["rowh", rng.randrange(min(nr, hdr + 1)), rng.randint(40, 150)],
                 ["addcol", rng.randint(1, 2)]]   # (a row that no `delrow` of the tail removes)
-        if nr - hdr >= 3:
+        # rows are deleted only in histories without strokes: a size that was read while a stroke of the deleted rows counted
+        # towards it stays memoised (recorded finding `stale-size-memo-after-delete-row`, scenario `read-stroke-then-delete-row`)
+        if nr - hdr >= 3 and not any(op[0] == "stroke" for op in script):
             grow.append(["delrow", rng.randint(1, nr - hdr - 1)])
         t1 = ["addtable", None if rng.random() < 0.7 else [float(rng.choice([0, 40])), float(rng.choice([300, 512.5]))],
               rng.randint(2, 5), rng.randint(2, 4)]
@@ -539,6 +556,23 @@ def scenario(name):
             return ("size-changes-on-reopen-after-add-next-to-stroke",
                     "4 pt borders on the bottom of A5 (last row) and the right of C1 (last column), then add_row(2), add_column(1): "
                     f"(row heights, column widths, height, width) before the save {before}, after reopen {after}")
+    elif name == "read-stroke-then-delete-row":
+        # recorded finding: delete_row does not drop the memoised column widths (nor delete_column the row heights)
+        def build_doc(read_first):
+            doc = Document(num_rows=5, num_cols=3)
+            tb = doc.sheets[0].tables[0]
+            tb.set_cell_border(4, 2, "left", Border(8.0, RGB(0, 0, 0), "solid"), 3)     # only the last row shows it
+            if read_first:
+                tb.col_width(1)
+            tb.delete_row(1)
+            return doc
+        a = build_doc(True)
+        b = build_doc(False)
+        wa, wb = a.sheets[0].tables[0].col_width(1), b.sheets[0].tables[0].col_width(1)
+        ra, rb = cycle(a).sheets[0].tables[0].col_width(1), cycle(b).sheets[0].tables[0].col_width(1)
+        if (wa, ra) != (wb, rb):
+            return ("stale-size-memo-after-delete-row", "8 pt stroke on the left of C5 (last row of 5), then delete_row(1): col_width(1) is "
+                    f"{wb} (reopened {rb}); if col_width(1) was read before the row was deleted it stays {wa} (reopened {ra})")
     elif name == "set-then-border":
         doc = Document()
         tb = doc.sheets[0].tables[0]
@@ -573,7 +607,7 @@ def scenario(name):
 
 
 SCENARIOS = ["issue-69b-unqueried", "border-drift", "set-then-border", "border-then-set", "caption-on-old-document",
-             "stroke-then-add-row"]
+             "stroke-then-add-row", "read-stroke-then-delete-row"]
 
 
 def _scenario_worker(task):
